@@ -23,6 +23,9 @@ def run(ctx):
     storage.growth_monotone(ctx, s)
     storage.read_bound_by_marker(ctx, s)
     storage.delineate_minimum(ctx, s)
+    from . import layout
+    ev_fns = [f for f in ctx.F.fns.values() if f.kind != "Closure" and f.nice.startswith("pocket_types::Event::")]
+    layout.reader_width_agreement(ctx, s, sorted(ev_fns, key=lambda f: f.nice), "event")
     storage.recorded_length_is_file_length(ctx, s)
     storage.reopen_validates_marker(ctx, s)
     storage.append_index_commit_order(ctx, s, "pocket_db::Store::store_event")
